@@ -25,7 +25,8 @@ func init() {
 		Assumptions: []string{"string == is exact comparison", "fmt.Sprintf with %s of a string inserts it verbatim"},
 		Tech:        "static analysis: guarded-by-condition on SSA, acceptance-condition enumeration for all implementations of the partition interface, constant-folded format strings",
 		NeedU1:      true,
-		Rules:       []func(*Ctx){ruleC06CheckedBeforeUse, ruleC06ExactMatch, ruleC06IDFormat, ruleC06EmptyRefused, ruleC06IDFlowsUnmodified, ruleC18KeyIDOperands, ruleC06KeyCacheIndexExact, ruleC06CachedSessionForRequestedID},
+		NeedU2:      true,
+		Rules:       []func(*Ctx){ruleC06CheckedBeforeUse, ruleC06ExactMatch, ruleC06IDFormat, ruleC06EmptyRefused, ruleC06IDFlowsUnmodified, ruleC18KeyIDOperands, ruleC06KeyCacheIndexExact, ruleC06CachedSessionForRequestedID, ruleC19PartitionVerbatim},
 	})
 }
 
